@@ -318,6 +318,7 @@ int main(int argc, char **argv)
 				pid_t pid;
 				fflush(stdout);
 				pid = fork();
+				for (int tries = 0; pid < 0 && tries < 20; tries++) { usleep(200000); pid = fork(); }	/* a loaded machine may refuse a fork for a moment */
 				if (pid < 0) vh_harness_fail("fork");
 				if (pid == 0) {
 					jwt_checker_t *c;
